@@ -5,7 +5,7 @@ from . import _bounded
 PROPERTIES = {
     "C12": dict(
         modules=["contracts.c12_get_data", "contracts.c02_documents"],
-        bounded=[_bounded.lazy("contracts.e2e_variables", "bounded_method_locals"), _bounded.lazy("contracts.e2e_outcomes", "bounded_outcomes")],
+        bounded=[_bounded.lazy("contracts.e2e_plugins", "bounded_plugins"), _bounded.lazy("contracts.e2e_variables", "bounded_method_locals"), _bounded.lazy("contracts.e2e_outcomes", "bounded_outcomes")],
         explanation="get_data of the four bundled base clients against the decision table of the statement; loop-free apart "
                     "from one comprehension (handled by map extensionality), so the symbolic execution over full-domain "
                     "status/body inputs is a complete proof",
@@ -20,7 +20,7 @@ PROPERTIES = {
     ),
     "C11": dict(
         modules=["contracts.c11_clients"],
-        bounded=[_bounded.lazy("contracts.c11_multipart", "bounded_separation"), _bounded.lazy("contracts.c11_multipart", "bounded_wire")],
+        bounded=[_bounded.lazy("contracts.e2e_outcomes", "bounded_outcomes"), _bounded.lazy("contracts.c11_multipart", "bounded_separation"), _bounded.lazy("contracts.c11_multipart", "bounded_wire")],
         explanation="run-time base clients: value conversion, JSON and multipart request construction, variables processing and the "
                     "json/multipart/telemetry dispatchers (each proved against recording stand-ins of its callees), one shared contract "
                     "instantiated for each of the four bundled clients; upload separation (separate_files) by the exhaustive bounded stand-in",
@@ -28,12 +28,12 @@ PROPERTIES = {
     ),
     "C06": dict(
         modules=["contracts.c06_input_types", "contracts.c06_defaults", "contracts.c18_names", "contracts.c09_pruning", "contracts.c04_modules"],
-        bounded=[_bounded.lazy("contracts.c09_pruning", "bounded_pruning"), _bounded.lazy("contracts.e2e_variables", "bounded_variables")],
+        bounded=[_bounded.lazy("contracts.e2e_scalars", "bounded_scalar_positions"), _bounded.lazy("contracts.c09_pruning", "bounded_pruning"), _bounded.lazy("contracts.e2e_variables", "bounded_variables")],
         explanation="input type translator and default-literal translator against the image/coercion spec functions, by structural induction",
         assumptions=["acceptance/refusal of concrete values by the emitted annotations is pydantic's (assumed contract)"],
     ),
     "C05": dict(
-        modules=["contracts.c05_result_fields", "contracts.c01_results"],
+        modules=["contracts.c05_result_fields", "contracts.c01_results", "contracts.c04_modules"],
         bounded=[_bounded.lazy("contracts.e2e_results", "bounded_results")],
         explanation="result field type translator against the image spec by structural induction (non-abstract positions), "
                     "directive handling, typename literal",
@@ -41,7 +41,7 @@ PROPERTIES = {
     ),
     "C07": dict(
         modules=["contracts.c07_scalars", "contracts.c05_result_fields", "contracts.c06_input_types"],
-        bounded=[_bounded.lazy("contracts.e2e_scalars", "bounded_scalar_positions")],
+        bounded=[_bounded.lazy("contracts.c11_multipart", "bounded_wire"), _bounded.lazy("contracts.e2e_scalars", "bounded_scalar_positions")],
         explanation="scalar annotation placement through the C05/C06 translator contracts, top-level variable serialisation",
         assumptions=["pydantic runs BeforeValidator/PlainSerializer once per non-null occurrence under Optional/List (assumed)"],
     ),
@@ -54,7 +54,7 @@ PROPERTIES = {
         assumptions=["A_snake: assumed contract on str_to_snake_case (regex lookahead is outside the solvers' fragment), bounded stand-in only"],
     ),
     "C19": dict(
-        modules=["contracts.c19_sources", "contracts.c06_input_types", "contracts.c06_defaults"],
+        modules=["contracts.c19_sources", "contracts.c06_input_types", "contracts.c06_defaults", "contracts.c04_modules"],
         bounded=[_bounded.lazy("contracts.e2e_sources", "bounded_sources")],
         explanation="introspection decision chain (complete, loop-free), header resolution, file discovery (walk_graphql_files) "
                     "with a trace invariant; defaults through the C06 contracts; equality of the clients generated from the three "
@@ -136,7 +136,7 @@ PROPERTIES = {
         assumptions=["embedding of the text in Python source (splitlines, ast.unparse, regex rewrite, isort, black) is outside the solvers' fragment: bounded stand-in only"],
     ),
     "C01": dict(
-        modules=["contracts.c01_results", "contracts.c05_result_fields"],
+        modules=["contracts.c01_results", "contracts.c05_result_fields", "contracts.c04_modules"],
         bounded=[_bounded.lazy("contracts.e2e_results", "bounded_results")],
         explanation="union / non-abstract translators and field implementation under contract; acceptance, typed instances and round trip by the reference-executor stand-in",
         assumptions=["pydantic validates the emitted annotation forms as their names say (assumed; exercised by the stand-in)"],
